@@ -20,15 +20,15 @@ def _build(crm):
     return b
 
 
-GC_CONTRACT = ('SyncResponder::get_commands and get_next (extracted): with remaining(to_send, next_send) = the ids of all commands from each to_send entry to the end of its segment, '
+GC_CONTRACT = ('SyncResponder::get_commands, get_next and push (extracted; push: one message at the current index, index + 1, no index change on failure): with remaining(to_send, next_send) = the ids of all commands from each to_send entry to the end of its segment, '
                'get_commands returns a prefix of it (exactly once, in order), a full response unless the session is drained, and does not change to_send / next_send / message_index; '
                'get_next writes a response (or SyncEnd when drained) at the current message index, advances the session by exactly the commands in the message, increments the index by one, '
                'and on ANY error leaves to_send / next_send / message_index unchanged (retry-safe); lemma over that contract: each delivered response strictly shrinks the outstanding sequence, '
                'so a session is drained after finitely many responses and the next call writes SyncEnd. Unbounded: any number of segments, commands and responses.')
 UNITS = [
     GSC_UNIT,
-    Verus('c17_get_commands', _build('100'), min_verified=26, contract=GC_CONTRACT),
-    Verus('c17_get_commands_5', _build('5'), min_verified=26, tiers=('thorough',), contract=GC_CONTRACT + ' (low-mem-usage constants: COMMAND_RESPONSE_MAX = 5)'),
+    Verus('c17_get_commands', _build('100'), min_verified=27, contract=GC_CONTRACT),
+    Verus('c17_get_commands_5', _build('5'), min_verified=27, tiers=('thorough',), contract=GC_CONTRACT + ' (low-mem-usage constants: COMMAND_RESPONSE_MAX = 5)'),
     Kani('sync::requester::verif_kani::c18_get_sync_commands_n1', fns=[Fn(Q, 'get_sync_commands', r'impl SyncRequester')], kind='bounded', bound='1 command meta', covers=1, cap_s=900,
          contract='the requester accepts a response only at the expected index and then expects index+1: response indexes increase by exactly one', **RT),
     Kani('sync::requester::verif_kani::c17_sync_end_contract', fns=[Fn(Q, 'get_sync_commands', r'impl SyncRequester')],
@@ -42,7 +42,7 @@ ASSUMPTIONS = ['get_commands / get_next are proved over an abstract provider: Se
                'SyncResponder::write / postcard put the given response index and command metas on the wire (external_body contracts); message_index < usize::MAX',
                '"every command sent is committed in the responder\'s graph" reduces to: to_send holds locations of the responder\'s own storage (find_needed_segments, not under contract)',
                '"parents-first within a session" across segments relies on to_send being sorted by (max_cut, segment) (c21_location_order) — the sort call itself is in find_needed_segments, not under contract',
-               'SyncResponder::push (the other caller of get_commands) is not under contract']
+               'SyncResponder::push: only the index discipline and the error frame are under contract (what it pushes depends on find_needed_segments, not under contract)']
 EXPLANATION = 'Index discipline on the requester side and session termination on the responder side, as function contracts on the real code.'
 MANIFEST = {
     'text': 'Proof of mechanisms: the requester enforces response indexes increasing by one and a matching end message; the responder ends a drained session with SyncEnd at the current index; '
